@@ -74,6 +74,7 @@ fn main() {
     };
     let prop = args[1].to_uppercase();
     let ctx = Ctx::new(&prop, tier);
+    engine::start_hang_monitor(prop.clone(), std::time::Duration::from_secs(90));
     if !props::run(&ctx) {
         eprintln!("MACHINERY: unknown property {}", prop);
         std::process::exit(2);
